@@ -97,6 +97,13 @@ func c01Eval(c *vlib.Check, k msg.Case) []byte {
 		c.Violation("decoded-content-differs:"+cls+":"+path, fmt.Sprintf("decoding %s yields different content: %s at %s", k.Name, cls, path), rep(map[string]any{"hex": hex.EncodeToString(enc)}))
 		return enc
 	}
+	// same wire content, but is it held by the same Go members? (several members of one structure can stand for one wire
+	// element, e.g. the alternatives of Key Material: a value decoded into another member than the one that was populated
+	// encodes to the same bytes and is still not the same content for the program reading it)
+	if where := memberSwap(reflect.ValueOf(k.Msg), reflect.ValueOf(fresh), ""); where != "" {
+		c.Violation("decoded-into-another-member:"+opDir(k)+":"+where, fmt.Sprintf("decoding %s populates other Go members than the original: %s", k.Name, where), rep(map[string]any{"hex": hex.EncodeToString(enc)}))
+		return enc
+	}
 	var enc2 []byte
 	if pv, site := vlib.Catch(func() { enc2 = ttlv.MarshalTTLV(fresh) }); pv != nil {
 		c.Violation("reencode-panic:"+site, fmt.Sprintf("re-encoding the decoded %s panicked: %v", k.Name, pv), rep(nil))
@@ -124,7 +131,7 @@ func runC01(c *vlib.Check) {
 		"x protocol versions 1.0..1.4. The enumeration is repeated in a fresh child process that first uses every message type at version 1.4 (thorough: also 1.3), since the codec builds its per-type plans at first use. "+
 		"distinct = distinct encodings of deviating messages", k)
 	c.Assumptions = []string{"'carries exactly the populated elements' is judged by an independent reflective projection (msg.Projector) using the pinned tag registry and the pinned version table",
-		"equality of content is compared on the projected element trees (instants as seconds, big integers by value, generic attribute values by their TTLV content)",
+		"equality of content is compared on the projected element trees (instants as seconds, big integers by value, generic attribute values by their TTLV content), and on which nillable Go members of each structure hold it (a member populated on one side only together with another populated on the other side only is a difference)",
 		"a failed response item without Result Reason is not a well-formed message (Result Reason is required for failures)"}
 	var jobs []c01job
 	for _, op := range msg.Operations() {
@@ -144,4 +151,62 @@ func runC01(c *vlib.Check) {
 	msg.ExtraCases(func(cs msg.Case) { c01Eval(c, cs) })
 	c.Exhaustive = true
 	c.RunHistories(firstUseHistories(c)[:1+len(firstUseHistories(c))/3])
+}
+
+// memberSwap walks the original a and the decoded b in parallel and reports the first structure in which a nillable member
+// is populated in a and not in b while another one is populated in b and not in a (members that are merely missing on one
+// side are the business of the content comparison: version gating removes members legitimately).
+func memberSwap(a, b reflect.Value, path string) string {
+	if !a.IsValid() || !b.IsValid() || a.Type() != b.Type() {
+		return ""
+	}
+	switch a.Kind() {
+	case reflect.Pointer, reflect.Interface:
+		if a.IsNil() || b.IsNil() {
+			return ""
+		}
+		return memberSwap(a.Elem(), b.Elem(), path)
+	case reflect.Slice, reflect.Array:
+		if a.Len() != b.Len() || a.Type().Elem().Kind() == reflect.Uint8 {
+			return ""
+		}
+		for i := 0; i < a.Len(); i++ {
+			if w := memberSwap(a.Index(i), b.Index(i), fmt.Sprintf("%s[%d]", path, i)); w != "" {
+				return w
+			}
+		}
+	case reflect.Struct:
+		if a.Type().PkgPath() == "time" || a.Type().PkgPath() == "math/big" {
+			return ""
+		}
+		var onlyA, onlyB []string
+		for i := 0; i < a.NumField(); i++ {
+			f := a.Type().Field(i)
+			if !f.IsExported() {
+				continue
+			}
+			fa, fb := a.Field(i), b.Field(i)
+			switch fa.Kind() {
+			case reflect.Pointer, reflect.Interface, reflect.Map:
+				if !fa.IsNil() && fb.IsNil() {
+					onlyA = append(onlyA, f.Name)
+				}
+				if fa.IsNil() && !fb.IsNil() {
+					onlyB = append(onlyB, f.Name)
+				}
+			}
+		}
+		if len(onlyA) > 0 && len(onlyB) > 0 {
+			return fmt.Sprintf("%s.{%s -> %s}", path, strings.Join(onlyA, ","), strings.Join(onlyB, ","))
+		}
+		for i := 0; i < a.NumField(); i++ {
+			if !a.Type().Field(i).IsExported() {
+				continue
+			}
+			if w := memberSwap(a.Field(i), b.Field(i), path+"."+a.Type().Field(i).Name); w != "" {
+				return w
+			}
+		}
+	}
+	return ""
 }
